@@ -347,6 +347,13 @@ class FunctionEstimator(BaseEstimator):
         mu = self.mu
         cov_func = self.cov_func
         sigma = self.sigma
+        if ndim(sigma) == 1 and sigma.shape[0] != x.shape[0]:
+            message = (
+                f"The per-cell `sigma` has {sigma.shape[0]:,} entries but there are "
+                f"{x.shape[0]:,} cells."
+            )
+            logger.error(message)
+            raise ValueError(message)
         jitter = self.jitter
         y_is_mean = self.y_is_mean
         with_uncertainty = self.predictor_with_uncertainty
